@@ -1,2 +1,8 @@
 def is_internal(name: str) -> bool:
     return name.startswith("_")
+
+
+def escape_string_literal(value: str) -> str:
+    """Return the Safe-DS string literal for a Python string: backslashes, double quotes and line breaks are escaped."""
+    escaped = value.replace("\\", "\\\\").replace('"', '\\"').replace("\n", "\\n").replace("\r", "\\r")
+    return f'"{escaped}"'
